@@ -50,6 +50,7 @@ Lemma credit_total s from to c s' d : In to U ->
   credit h (Some s) (from, to, c) = Some s' -> total U (s_bal s') d = total U (s_bal s) d + amt c d.
 Proof.
   intros Ht. unfold credit, restrict.
+  destruct (marker_ok h s from c); cbn [negb]; [|discriminate].
   destruct (Pos.eqb from to || Pos.eqb from h).
   - intros [= <-]. cbn [s_bal with_bal]. apply total_add_in; assumption.
   - destruct (negb (is_optin s to) || is_auto_accept s to [from]).
